@@ -7,6 +7,41 @@ import os
 ROOT = os.path.dirname(os.path.dirname(os.path.abspath(__file__)))
 
 CHECKS = {
+    "C01": dict(
+        category="exploration",
+        technique="Hypothesis-generated typed csvpath ASTs and CSV tables run through collect()/next(), compared line-for-line with a reference interpreter written from the docs",
+        text="Generated programs (1-6 components, depth<=3, ~70 modelled functions, both logic modes, when/do, qualified assignments, side effects) over generated tables (ragged rows, blanks, empty/padded cells, multi-digit numbers) and scan windows; the returned lines must equal, in order and once each, the lines the reference interpreter says match. Where the docs are silent the oracle answers UNDEFINED and the case is discarded and counted.",
+        note="Trusted: vf/model/refinterp.py (unverified reference interpreter; disagreements are triaged before being reported), the typed generator's construction rules. Not covered: functions outside the modelled set, depth>3, >6 components, onmatch interactions the docs leave open.",
+        design="5 C01",
+    ),
+    "C03": dict(
+        category="exploration",
+        technique="Hypothesis-generated variable-writing csvpaths with per-line observation taps, compared with the reference interpreter's store and counters",
+        text="Writer-heavy generated programs (assignments, qualified assignments, push/pop/peek, tally, counter, sum, subtotal, track, count(x), first, every, when/do); compared after the run (variables, scan_count, match_count) and at every scanned line (line_number/count_lines/count_scans/count() pushed to stacks, watched variables printed by a tap placed first on the line).",
+        note="Trusted: reference interpreter; taps placed first on the line. every()'s bookkeeping variables and internal _intx_ keys are not compared.",
+        design="5 C03",
+    ),
+    "C05": dict(
+        category="exploration",
+        technique="exhaustive enumeration of policy subsets x override x error kind x fault position against a one-line-per-flag outcome model",
+        text="All 63 non-empty subsets of {raise,collect,stop,fail,print,quiet}, set through config.ini or the config attribute, x 10 validation-mode settings x 5 error kinds (argument mismatch, function rule, Python exception, nested, right of ->) x 4 offending-line patterns x 3 component positions; each a real run whose exception/errors/is_valid/lines-run/printouts/returned lines are compared with the model. Quick: seeded sample covering every (policy, kind, override); thorough: the full product (75,600 runs).",
+        note="Trusted: vf/model/errpolicy.py. The count of error records per offending line is not fixed by the statement (>=1 required).",
+        design="5 C05",
+    ),
+    "C06": dict(
+        category="exploration",
+        technique="Hypothesis round trip: generated records -> csv.writer -> CsvPath -> compared cell for cell; #name vs #index agreement",
+        text="Arbitrary unicode cells (no CR/surrogates; NUL, quotes, delimiters, newlines, non-BMP), 0-12 records of 0-6 cells, blank records anywhere, 4 delimiters x 2 quote chars. collect() of [*][yes()] must equal the non-blank records exactly; headers must be the cleaned first non-blank record; with tidy header names #name and #index stacks must agree element-wise, be the cell, and be None on short rows without failing the run.",
+        note="Trusted: Python's csv module as the file writer (files it cannot read back itself are discarded and counted).",
+        design="5 C06",
+    ),
+    "C14": dict(
+        category="exploration",
+        technique="exhaustive enumeration of qualifier subsets x value histories x rest-of-line patterns against a decision table",
+        text="All 256 subsets of the eight assignment qualifiers x all 3-value sequences of y over {absent,1,2,3} (+true/false without increase/decrease) x all 8 patterns of 'rest of the line matches', each a real 3-line run; x after every line and the set of returned lines are compared with vf/model/assign.py. Thorough is exhaustive (208,896 runs); quick is a seeded sample with every subset >=20 times.",
+        note="Trusted: vf/model/assign.py. Where docs give two readings (latch with a blocking notnone/increase/decrease) both votes are admitted and counted.",
+        design="5 C14",
+    ),
     "C02": dict(
         category="exploration",
         technique="exhaustive enumeration of scan shapes x blank positions (L<=5) plus Hypothesis-sampled (scan, file) pairs (L<=9) against a set-algebra oracle",
